@@ -3,8 +3,9 @@ C01 — property theorems (MRS serialisations are lossless and stable).
 Only property statements live here; every proof is a reference to a lemma of CodecLemmas /
 SimpleLemmas / VarsLemmas / Lemmas / JsonLemmas, so a statement cannot be weakened quietly.
 
-Not proved (tied by the correspondence run and decided by the direct oracle only): the regex lexer
-and the text layout of SimpleMRS (`lex (render ts) = ts`), the text layout of MRX.
+Not proved (tied by the correspondence run and decided by the direct oracle only): the indented
+text layouts of SimpleMRS/Indexed MRS/MRX, the Indexed MRS lexer, the MRX and JSON text level
+(library parameters), the decoded property maps of Indexed MRS.
 -/
 import Verif.Common.CodecLemmas
 import Verif.C01.Lemmas
@@ -12,6 +13,9 @@ import Verif.C01.JsonLemmas
 import Verif.C01.SimpleLemmas
 import Verif.C01.StableLemmas
 import Verif.C01.MrxLemmas
+import Verif.C01.IxLemmas
+import Verif.C01.LexToksLemmas
+import Verif.C01.LexLemmas
 
 namespace Verif.C01.P
 open Verif.Codec Verif.Tables Verif.C01
@@ -97,6 +101,25 @@ theorem simplemrs_stable (o : Opts) (m : MRS)
     (hn : (m.vars.map (·.1)).Nodup) (hp : ∀ vp ∈ m.vars, (vp.2.map (·.1)).Nodup) :
     toks o (decodedS o m) = toks o m := toks_decodedS o m hn hp
 
+/-! ## SimpleMRS, character level (single-line layout) -/
+
+/-- the model of the regex lexer reads back the single-line layout of the encoder's token list:
+`lex (render (toks o m)) = toks o m` for every MRS whose atoms are lexically expressible
+(`LexExprS`: unquoted atoms over plain characters, strings without line breaks, the Lnk kinds
+SimpleMRS carries, predicates surface/abstract or quoted). -/
+theorem simplemrs_lex_render (o : Opts) (m : MRS) (h : Lex.LexExprS m) :
+    Lex.lex (Lex.render (toks o m)) = some (toks o m) :=
+  Lex.lex_render (toks o m) (Lex.toks_ok o m h).1 (Lex.toks_ok o m h).2
+
+/-- text level, single-line layout: lexing the text of the encoder and running the decoder gives
+the decoded structure (`decode ∘ encode` with `indent=False`, for the model of the lexer). -/
+theorem simplemrs_text_roundtrip (o : Opts) (m : MRS) (h : Lex.LexExprS m) (he : ExprS m) :
+    (Lex.lex (Lex.render (toks o m))).map parse = some (.ok (decodedS o m, [])) := by
+  rw [simplemrs_lex_render o m h]
+  have := parse_toks o m [] he
+  simp only [List.append_nil] at this
+  simp [this]
+
 /-- sorting by `property_priority` is idempotent (used for "encoding that result again reproduces
 the text exactly": the re-encoder sorts an already sorted property list). -/
 theorem sortProps_stable (ps : Props) : sortProps (sortProps ps) = sortProps ps := sortProps_idem ps
@@ -112,6 +135,45 @@ kept, and `variables` rebuilt from the `var` elements (properties at the first m
 arguments, `hi` of handle constraints, individual constraints). -/
 theorem mrx_roundtrip (o : Opts) (m : MRS) (h : ExprX m) : ofXml (toXml o m) = some (decodedX o m) :=
   ofXml_toXml o m h
+
+/-! ## Indexed MRS, token level, relative to a SEM-I that covers the structure -/
+
+-- FULL STATEMENT (not proved): for a covering SEM-I, also with property lists written, the decoded
+-- `variables` equal the original ones up to the case of the values.  Proved: the structure part with
+-- property lists (`indexed_roundtrip_props`, the decoded variables given as `matchAll` of the
+-- first-mention assignments); missing: that `matchAll` succeeds and returns the original maps (needs
+-- reflexivity/subsumption facts of the SEM-I's property hierarchy on the written values).
+/-- "… and Indexed MRS relative to a SEM-I that covers the structure": when no property list is
+written (properties off, or no variable has properties) the decoder run on the encoder's tokens
+followed by any further tokens returns top, index, handle and individual constraints unchanged and
+every EP with its arguments in synopsis order and the constant last (`epViewI`), alignment only when
+`o.lnk`; `CoverEP` is the covering condition (the encoder finds a synopsis with the EP's roles and
+the positional reading of the written sorts selects a synopsis with the same leading role names). -/
+theorem indexed_roundtrip_partial (semi : Ix.SemI) (o : Opts) (m : MRS) (ts rest : List Ix.TI)
+    (htop : m.top.isSome = true)
+    (hnp : o.properties = false ∨ ∀ vp ∈ m.vars, vp.2 = [])
+    (hc : ∀ e ∈ m.rels, Ix.CoverEP semi e)
+    (ht : Ix.toksIx semi o m = .ok ts) :
+    Ix.parseIx semi (ts ++ rest) = .ok (Ix.decodedI0 semi o m, rest) :=
+  Ix.parseIx_toksIx_partial semi o m ts rest htop hnp hc ht
+
+/-- "the same … arguments, constant": the EP that comes back has exactly the arguments of the
+original, as a map from roles to values. -/
+theorem indexed_same_arguments (semi : Ix.SemI) (o : Opts) (e : EP) (h : Ix.CoverEP semi e) :
+    ∀ r, dget (Ix.epViewI semi o e).args r = dget e.args r := Ix.epViewI_args semi o e h
+
+/-- the structure part with property lists written: the same EPs and constraints; the decoded
+`variables` are `_match_properties` of the first-mention assignments. -/
+theorem indexed_roundtrip_props (semi : Ix.SemI) (o : Opts) (m : MRS) (ts rest : List Ix.TI)
+    (vp0 : Dict (List Str)) (htop : m.top.isSome = true)
+    (hprep : (if o.properties then Ix.prepProps semi m.vars else .ok []) = .ok vp0)
+    (hgood : IxL.GoodVp vp0) (hc : ∀ e ∈ m.rels, Ix.CoverEP semi e) (ht : Ix.toksIx semi o m = .ok ts) :
+    ∃ ix, m.index = some ix ∧
+      Ix.parseIx semi (ts ++ rest) =
+        (match Ix.matchAll semi (Ix.assignAll (IxL.asgVar vp0 ix ++ IxL.asgRels semi (Ix.encVarI vp0 ix).2 m.rels)) with
+         | .ok vars => .ok (mkMRS m.top m.index (m.rels.map (Ix.epViewI semi o)) m.hcons m.icons vars .unspec none none, rest)
+         | .error err => .error err) :=
+  Ix.parseIx_toksIx_props semi o m ts rest vp0 htop hprep hgood hc ht
 
 /-! ## MRS-JSON, dictionary level (json.dumps/json.loads are the identity on these dictionaries:
 assumption, checked on every generated case) -/
